@@ -60,10 +60,10 @@ type thread struct {
 	cases []Case
 	pred  func() bool
 	// results
-	got    reflect.Value
-	gotOK  bool
-	selIdx int
-	panicV *nd.Panic
+	got     reflect.Value
+	gotOK   bool
+	selIdx  int
+	panicV  *nd.Panic
 	doPanic string // panic to raise in the thread when it resumes (send on closed channel)
 	sticky  bool   // the thread just passed the point before a channel operation: if the operation is ready it proceeds without another scheduling choice
 }
@@ -75,23 +75,30 @@ type Outcome struct {
 	Panic   *nd.Panic
 	PanicIn string
 	Steps   int
+	Spawned int      // threads created during the execution
+	MaxLive int      // largest number of unfinished threads at a scheduling decision
 	Trace   []string // schedule (thread names in order of scheduling decisions), kept when the nd context keeps notes
 }
 
 type sched struct {
-	c       *nd.Ctx
-	threads []*thread
-	cur     *thread
-	parked  chan *thread // thread -> scheduler: "I parked or finished"
-	abort   bool
-	closed  map[uintptr]bool
-	keep    []reflect.Value // channels known closed are kept alive: their address must not be reused within a run
-	stolen  map[uintptr][]reflect.Value
-	horizon int
-	canon   bool
-	steps   int
-	trace   []string
-	gmap    sync.Map // goroutine id -> *thread
+	c        *nd.Ctx
+	threads  []*thread
+	maxLive  int
+	liveMain int // unfinished non-daemon threads
+	spawned  int // threads ever created (ids and names; finished threads are dropped from the list)
+	ndone    int
+	cur      *thread
+	parked   chan *thread // thread -> scheduler: "I parked or finished"
+	abort    bool
+	closed   map[uintptr]bool
+	keep     []reflect.Value // channels known closed are kept alive: their address must not be reused within a run
+	stolen   map[uintptr][]reflect.Value
+	horizon  int
+	canon    bool
+	fair     int
+	steps    int
+	trace    []string
+	gmap     sync.Map // goroutine id -> *thread
 }
 
 var active atomic.Pointer[sched]
@@ -140,6 +147,11 @@ type Options struct {
 	// id runs, and the first ready select arm is taken. For harnesses whose
 	// quantifier is the input, not the schedule.
 	Canonical bool
+	// Fair (with the canonical schedule): every Fair-th scheduling decision
+	// goes to the next enabled thread after the running one. For histories of
+	// many thousand steps, where the plain canonical schedule starves runnable
+	// short-lived threads until the end.
+	Fair int
 }
 
 // Run executes main as thread 0 under the controlled scheduler and returns
@@ -149,7 +161,7 @@ func Run(c *nd.Ctx, opt Options, main func()) Outcome {
 	if active.Load() != nil {
 		panic("vs: nested Run")
 	}
-	s := &sched{c: c, parked: make(chan *thread), closed: map[uintptr]bool{}, stolen: map[uintptr][]reflect.Value{}, horizon: opt.Horizon, canon: opt.Canonical}
+	s := &sched{c: c, parked: make(chan *thread), closed: map[uintptr]bool{}, stolen: map[uintptr][]reflect.Value{}, horizon: opt.Horizon, canon: opt.Canonical, fair: opt.Fair}
 	if s.horizon == 0 {
 		s.horizon = 20000
 	}
@@ -166,13 +178,19 @@ func Run(c *nd.Ctx, opt Options, main func()) Outcome {
 		}
 	}
 	out.Steps = s.steps
+	out.Spawned = s.spawned
+	out.MaxLive = s.maxLive
 	out.Trace = s.trace
 	return out
 }
 
 func (s *sched) spawn(name string, daemon bool, fn func()) *thread {
-	t := &thread{id: len(s.threads), name: name, daemon: daemon, wake: make(chan struct{}), op: opStart}
+	t := &thread{id: s.spawned, name: name, daemon: daemon, wake: make(chan struct{}), op: opStart}
 	s.threads = append(s.threads, t)
+	s.spawned++
+	if !daemon {
+		s.liveMain++
+	}
 	go func() {
 		if checkGID {
 			s.gmap.Store(gid(), t)
@@ -488,14 +506,29 @@ func (s *sched) loop() Outcome {
 				return Outcome{Kind: "panic", Panic: t.panicV, PanicIn: t.name, Blocked: s.blocked()}
 			}
 		}
-		// all non-daemon threads done?
-		alldone := true
-		for _, t := range s.threads {
-			if !t.done && !t.daemon {
-				alldone = false
+		// long histories create thousands of short-lived threads: forget the
+		// finished ones (relative order of the others is kept)
+		if s.cur != nil && s.cur.done {
+			s.ndone++
+			if s.ndone >= 64 && s.ndone*2 > len(s.threads) {
+				live := s.threads[:0]
+				for _, t := range s.threads {
+					if !t.done {
+						live = append(live, t)
+					}
+				}
+				for i := len(live); i < len(s.threads); i++ {
+					s.threads[i] = nil
+				}
+				s.threads = live
+				s.ndone = 0
 			}
 		}
-		if alldone {
+		// all non-daemon threads done?
+		if s.cur != nil && s.cur.done && !s.cur.daemon {
+			s.liveMain--
+		}
+		if s.liveMain == 0 {
 			return Outcome{Kind: "complete", Blocked: s.blocked()}
 		}
 		s.steps++
@@ -514,6 +547,35 @@ func (s *sched) loop() Outcome {
 				continue
 			}
 		}
+		if s.canon && s.fair > 0 && s.steps%s.fair == 0 && s.cur != nil {
+			// fair canonical schedule: every fair-th decision goes to the next
+			// enabled thread after the current one (cyclically), so that
+			// runnable short-lived threads finish instead of piling up
+			at := 0
+			for i, t := range s.threads {
+				if t == s.cur {
+					at = i
+					break
+				}
+			}
+			var next *thread
+			for k := 1; k <= len(s.threads); k++ {
+				t := s.threads[(at+k)%len(s.threads)]
+				if t != s.cur && !t.done && s.enabled(t) {
+					next = t
+					break
+				}
+			}
+			if next != nil {
+				if s.c.Keeping() {
+					s.trace = append(s.trace, next.name+": "+next.describe())
+				}
+				s.apply(next)
+				s.cur = next
+				next.wake <- struct{}{}
+				continue
+			}
+		}
 		var en []*thread
 		curEnabled := false
 		if s.cur != nil && !s.cur.done && s.enabled(s.cur) {
@@ -521,12 +583,21 @@ func (s *sched) loop() Outcome {
 			curEnabled = true
 		}
 		for _, t := range s.threads {
+			if s.canon && len(en) > 0 {
+				// the canonical schedule takes the first enabled thread: the
+				// others need not be collected (long histories pile up
+				// thousands of runnable short-lived threads)
+				break
+			}
 			if t != s.cur && !t.done && s.enabled(t) {
 				en = append(en, t)
 			}
 		}
 		if len(en) == 0 {
 			return Outcome{Kind: "deadlock", Blocked: s.blocked()}
+		}
+		if len(en) > s.maxLive {
+			s.maxLive = len(en)
 		}
 		pick := 0
 		if len(en) > 1 && !s.canon {
@@ -583,7 +654,7 @@ func GoNamed(name string, daemon bool, fn func()) {
 		if i := strings.LastIndex(file, "/"); i >= 0 {
 			file = file[i+1:]
 		}
-		name = fmt.Sprintf("go@%s:%d#%d", file, line, len(s.threads))
+		name = fmt.Sprintf("go@%s:%d#%d", file, line, s.spawned)
 	}
 	s.spawn(name, daemon, fn)
 }
